@@ -101,6 +101,30 @@ def apply_rewrites(text, required, optional, log, fnq):
         for (frm, to, _allf) in lst:
             cnt = 0
             start = 0
+            if _allf == 're':
+                # regex rewrite (DOTALL); every match must start in code
+                pat = re.compile(frm, re.S)
+                pos = 0
+                while True:
+                    mt = pat.search(text, pos)
+                    if not mt:
+                        break
+                    if not mask[mt.start()]:
+                        pos = mt.start() + 1
+                        continue
+                    rep = mt.expand(to)
+                    if rep.count('\n') != mt.group(0).count('\n'):
+                        rep = rep + '\n' * (mt.group(0).count('\n') - rep.count('\n'))
+                    text = text[:mt.start()] + rep + text[mt.end():]
+                    mask = rs.code_mask(text)
+                    pos = mt.start() + len(rep)
+                    cnt += 1
+                if cnt == 0:
+                    if must:
+                        raise GenError('%s: rewrite_re anchor not found: %r' % (fnq, frm))
+                    continue
+                log.append({'fn': fnq, 'rule': 'R4', 'from': 're:' + frm, 'to': to, 'count': cnt})
+                continue
             while True:
                 k = text.find(frm, start)
                 if k < 0:
@@ -239,12 +263,12 @@ def gen_fn(out, unit, f, sf, meta, probe):
         used.add(ls.ordinal)
         finfo['loops'].append({'ordinal': ls.ordinal, 'header': hdr, 'src_line': body_line0 + body.count('\n', 0, kw)})
         tmp = Out()
-        if ls.invariant:
-            tmp.add('            invariant', {'kind': 'kw', 'fn': fnq})
-            clause_lines(tmp, ls.invariant, fnq, 'invariant', '                ', default_props, ci, loop=ls.ordinal)
         if ls.invariant_except_break:
             tmp.add('            invariant_except_break', {'kind': 'kw', 'fn': fnq})
             clause_lines(tmp, ls.invariant_except_break, fnq, 'invariant', '                ', default_props, ci, loop=ls.ordinal)
+        if ls.invariant:
+            tmp.add('            invariant', {'kind': 'kw', 'fn': fnq})
+            clause_lines(tmp, ls.invariant, fnq, 'invariant', '                ', default_props, ci, loop=ls.ordinal)
         if ls.ensures:
             tmp.add('            ensures', {'kind': 'kw', 'fn': fnq})
             clause_lines(tmp, ls.ensures, fnq, 'loop-ensures', '                ', default_props, ci, loop=ls.ordinal)
@@ -394,6 +418,8 @@ def copy_item(out, sf, kind, name, mode, meta):
         if s.startswith('///') or s.startswith('//'):
             continue
         l = re.sub(r'\bpub\(crate\)\s+', 'pub ', l)
+        if re.match(r'^(struct|enum|const|type|static)\b', l):
+            l = 'pub ' + l                            # R7: item visibility normalised
         if kind == 'struct' and re.match(r'^\s+[a-z_][A-Za-z0-9_]*\s*:', l):
             l = re.sub(r'^(\s+)', r'\1pub ', l)   # R7: field visibility normalised (Verus: no opaque fields in specs)
         keep.append((l, line0 + k))
